@@ -1,5 +1,5 @@
 """C16 - SM to SSC conversion keeps every property, chart, timing and note (structural clauses)."""
-from ..rules import convert, fwd, readers, writers
+from ..rules import convert, fwd, readers, writers, baseline
 
 EXPLANATION = (
     "Static rule checking of sm_to_ssc: R-ALIAS every aliased item property of the source class resolves to the same key/alias "
@@ -34,10 +34,14 @@ def c5(ctx):
     readers.ssc_simfile_table(ctx, raw_key_ok=True, relaxed=True)
 
 
+def c_api(ctx):
+    baseline.surface(ctx, "C16: documented surface", modules=['simfile.convert'], keys=['simfile.ssc.SSCSimfile', 'simfile.ssc.SSCChart', 'simfile.sm.SMSimfile'])
+
 CLAUSES = [
     ("C16.1", "aliases survive conversion (R-ALIAS)", c1),
     ("C16.2-5", "purity and freshness; every chart in order; templates forwarded (R-PURE, R-ORDER, R-FWD)", c2),
     ("C16.3", "every property is copied when the target is SSC (R-TABLE)", c3),
     ("C16.4", "negative BPM/stop refusal first (R-ORDER)", c4),
     ("C16.6", "the result's serialization loads back as an equal SSC simfile: every key is written, the notes item (by key) last (shared with C02)", c5),
+    ("C16.api", "public surface: signatures and defaults, constants, enumerations, blank templates, base classes as confirmed (R-API)", c_api),
 ]
